@@ -1,1 +1,3 @@
-import PasskeyVerif.Model.Hid
+-- Root of the `PasskeyVerif` library: every property module.
+import PasskeyVerif.Props.C16
+import PasskeyVerif.Props.C10
